@@ -131,7 +131,8 @@ def planStep (st : St) : List String → St × String
       let ctr : Option Int :=
         if kind == "hatt" then (if c == "verify" || c == "auth" then some handlerCounter else none)
         else if c == "auto" then some (now / sec / (KM.Gen.C14.totpPeriod : Int))
-        else if c == "same" then some s.lastSuccCounter
+        else if c == "same" && s.lastSuccCounter != handlerCounter then some s.lastSuccCounter
+        else if c == "same" then some (now / sec / (KM.Gen.C14.totpPeriod : Int))
         else c.toInt?
       match ctr with
       | some ctr =>
